@@ -83,8 +83,8 @@ impl Prop for C08Prop {
     }
     fn fixed_cases(&self, tier: Tier) -> Vec<Case> {
         // all texts of length <= k over a 9-symbol alphabet
-        let alpha = ['a', ' ', '"', '\\', '#', '=', ':', '!', '\n'];
-        let k = if tier == Tier::Quick { 4 } else { 6 };
+        let alpha = ['a', ' ', '"', '\\', '#', '=', ':', '!', '\n', '$', '{'];
+        let k = if tier == Tier::Quick { 4 } else { 5 };
         let mut out = vec![];
         let mut cur: Vec<Vec<char>> = vec![vec![]];
         for _ in 0..=k {
